@@ -28,6 +28,10 @@ CLAIMED = {
         text="Composition of the C04 client-chain model and the C05 server-table model over ONE responses object: Lean counter-example theorems exhibit exactly the configurations where server status/encoding and client dispatch disagree (default sent as 200, range sent as its first code, same-status variants, JSON-encoded text); the check runs the generator twice (client-mod, server-mod), feeds every server variant's (status, encoding) into the client's emitted chain and compares the wire shapes of all types between the two runs.",
         note="Trusted: Lean kernel; the C03/C04/C05 models; HTTP framing, serde payload encoding and axum extractors are not modelled. The positive interop theorem is proved for exact-code variants via C04's dispatch theorem; the other variant kinds are characterised by known-finding classes.",
         ref="§6 C06"),
+    "C07": dict(
+        text="Lean 4 proofs over a model of SchemaRegistry::collect/reachable: the checked closure is sound (contains the seeds, closed under the dependency relation), minimal (everything in it is a seed or TC-reachable from one) and total (fuel suffices), so the emitted set is exactly the reachable set; collect covers every direct and nested member/union/allOf/items reference. The model's dependency map, cyclic set and reachable set are compared with the real SchemaRegistry on every case; the files emitted by the current sources are parsed with syn and judged: every mentioned type defined exactly once, every emitted schema type transitively referenced by a selected operation (spec-level closure incl. map values, mappings, both parameter levels).",
+        note="Trusted: Lean kernel; petgraph DFS/SCC replaced by the proved closure and compared per case; syn extraction + external-crate allow-list. Four escape routes of collect are reproduced and recorded as known findings (additionalProperties $ref, nullable wrapper, single-$ref union, path-item parameters).",
+        ref="§6 C07"),
 }
 PENDING = ["C01","C02","C03","C04","C05","C06","C07","C08","C10","C11","C12","C13","C14","C15","C16","C17","C18","C19","C20"]
 
